@@ -104,6 +104,7 @@ type State struct {
 	closures map[string]*Closure
 	nonnil   map[string]bool
 	once     map[string]bool
+	loopTrace map[int]*Term // bottom frame: the ghost trace at the most recent visit of each loop head (startTrace in postconditions)
 	views    map[string]bool // sequence terms that are re-sliced views of a slice that is still reachable (A-seq side condition)
 	fullMod  map[string]bool // heap arrays written at objects that existed on entry
 	fresh    map[string]bool // refs allocated on this path
@@ -144,6 +145,10 @@ func (st *State) Clone() *State {
 	n.fullMod = make(map[string]bool, len(st.fullMod))
 	for k, v := range st.fullMod {
 		n.fullMod[k] = v
+	}
+	n.loopTrace = make(map[int]*Term, len(st.loopTrace))
+	for k, v := range st.loopTrace {
+		n.loopTrace[k] = v
 	}
 	n.views = make(map[string]bool, len(st.views))
 	for k, v := range st.views {
@@ -192,11 +197,16 @@ func (st *State) Clone() *State {
 	return n
 }
 
-var freshCtr int
+// fresh names are numbered per prefix and restart with every function under verification, so that the text of a
+// query depends on the function it comes from and not on what was verified before it
+var freshCtr = map[string]int{}
+
+func resetFresh() { freshCtr = map[string]int{} }
 
 func (st *State) Fresh(prefix, sort string) *Term {
-	freshCtr++
-	name := fmt.Sprintf("%s$%d", sanitize(prefix), freshCtr)
+	p := sanitize(prefix)
+	freshCtr[p]++
+	name := fmt.Sprintf("%s$%d", p, freshCtr[p])
 	st.decls = append(st.decls, fmt.Sprintf("(declare-const %s %s)", name, sort))
 	return mk(sort, name)
 }
